@@ -58,3 +58,23 @@ Print Assumptions C07_file_ends_at_global.
 Theorem C07_units_and_bodies : (forall u, unit1 u -> P u) /\ (forall b, body b -> Q b).
 Proof. exact units_and_bodies. Qed.
 Print Assumptions C07_units_and_bodies.
+
+(* ---- every token is examined: it lies in exactly one matched statement of a run that ends normally (at an index
+   below the statement's length), and the checks without dependencies run on EVERY matched statement, whatever primary
+   matched it (run order computed from Gen.Registry, the table regenerated from the rule classes on every run) *)
+From NV Require Import Model.RuleChecks Model.RegistryOrder Proofs.RuleChecksLift.
+
+Theorem C07_every_token_in_a_statement : forall oracle (ftoks : list token) segs k t,
+  good oracle -> run_file oracle 0 (List.length ftoks) = Ok segs -> nth_error ftoks k = Some t ->
+  exists name before after, In (SMatch name before after) segs /\ (after < before <= List.length ftoks)%nat /\
+    let rem := skipn (List.length ftoks - before) ftoks in
+    let i := Z.of_nat (k - (List.length ftoks - before)) in
+    0 <= i < Z.of_nat (before - after) /\ peek rem i = Some t.
+Proof. exact file_token_in_statement. Qed.
+Print Assumptions C07_every_token_in_a_statement.
+
+Theorem C07_rule_checks_run_on_every_statement : forall p c,
+  In c [s "CheckTernary"; s "CheckLineLen"; s "CheckLabel"; s "CheckEmptyLine"; s "CheckLineIndent"; s "CheckSpacing"] ->
+  In c (checks_run_on p).
+Proof. exact rule_checks_run_always. Qed.
+Print Assumptions C07_rule_checks_run_on_every_statement.
